@@ -521,6 +521,87 @@ func atomically(ctx sdk.Context, f func(c sdk.Context) error) (err error) {
 	return nil
 }
 
+// refVerdict is the reference decision for a keep-alive reporting version ver
+// while the minimum is min (a valid semver, proposals with anything else are
+// refused): +1 must be accepted (not older than min), -1 must be refused
+// (older), 0 either. Pre-releases sort before their release, build metadata is
+// ignored (semver 2.0). A malformed string is not a version at all: it must be
+// refused unless it can be read as a version not older than min by adding the
+// missing "v" (weaker reading, then either outcome is accepted).
+func refVerdict(ver, min string) int {
+	if semver.IsValid(ver) {
+		if semver.Compare(ver, min) >= 0 {
+			return +1
+		}
+		return -1
+	}
+	if n := "v" + ver; semver.IsValid(n) && semver.Compare(n, min) >= 0 {
+		return 0
+	}
+	return -1
+}
+
+type verCase struct{ name, ver string }
+
+// versionAlphabet derives the keep-alive version alphabet from the minimum
+// M = vX.Y.Z in force. The first four are explored as operations of their own
+// (min, below, above, rc), the rest are evaluated by the probe operation.
+func versionAlphabet(m string) (main, probes []verCase, ok bool) {
+	var x, y, z int
+	if n, err := fmt.Sscanf(m, "v%d.%d.%d", &x, &y, &z); n != 3 || err != nil || fmt.Sprintf("v%d.%d.%d", x, y, z) != m {
+		return nil, nil, false
+	}
+	ver := func(a, b, c int) string { return fmt.Sprintf("v%d.%d.%d", a, b, c) }
+	below := ver(x, y, z-1)
+	switch {
+	case z > 0:
+	case y > 0:
+		below = ver(x, y-1, z+99)
+	case x > 0:
+		below = ver(x-1, y+99, z)
+	default:
+		below = m + "-alpha"
+	}
+	main = []verCase{{"min", m}, {"below", below}, {"above", ver(x, y, z+1)}, {"rc", m + "-rc.1"}}
+	probes = []verCase{
+		{"minor+1", ver(x, y+1, 0)},
+		{"major+1", ver(x+1, 0, 0)},
+		{"pre-0", m + "-0"},
+		{"git-describe", m + "-4-g2f9c1ab"},
+		{"build", m + "+build.5"},
+		{"rc+build", m + "-rc.1+build.5"},
+		{"next-minor-rc", ver(x, y+1, 0) + "-rc.1"},
+		{"above-rc", ver(x, y, z+1) + "-rc.1"},
+		{"below-build", below + "+zzz"},
+		{"bare-min", strings.TrimPrefix(m, "v")},
+		{"bare-below", strings.TrimPrefix(below, "v")},
+		{"short", fmt.Sprintf("v%d.%d", x, y+1)},
+		{"garbage", "pigeon-latest"},
+		{"empty", ""},
+		{"leading-zero", fmt.Sprintf("v%d.%d.0%d", x, y, z+1)},
+	}
+	if y > 0 {
+		probes = append(probes, verCase{"minor-1", ver(x, y-1, z+5)})
+	}
+	if x > 0 {
+		probes = append(probes, verCase{"major-1", ver(x-1, y+5, z+5)})
+	}
+	return main, probes, true
+}
+
+// keepAliveProbes evaluates the probe versions for validator v, each on its own
+// fork of the state (the state itself is left unchanged).
+func (e *env) keepAliveProbes(ctx *sdk.Context, g *ghost, v int, probes []verCase) *explore.Fail {
+	for _, p := range probes {
+		c := world.Fork(*ctx)
+		gg := g.Clone().(*ghost)
+		if f := e.keepAlive(&c, gg, v, p.ver); f != nil {
+			return f
+		}
+	}
+	return nil
+}
+
 func (e *env) keepAlive(ctx *sdk.Context, g *ghost, v int, ver string) *explore.Fail {
 	val := e.w.Vals[v]
 	min := e.minVersion(*ctx)
@@ -536,20 +617,26 @@ func (e *env) keepAlive(ctx *sdk.Context, g *ghost, v int, ver string) *explore.
 	} else {
 		err = atomically(*ctx, func(c sdk.Context) error { _, err := e.msg.KeepAlive(c, msg); return err })
 	}
-	old := semver.Compare(ver, min) < 0
+	verdict := refVerdict(ver, min)
 	switch {
-	case err == nil && old:
-		return explore.Failf("version-gate:old-keepalive-accepted", "keep-alive of v%d with version %s accepted although the minimum is %s (%s)", v, ver, min, e.desc)
-	case err != nil && !old:
-		return explore.Failf("keepalive-refused-valid-version", "keep-alive of v%d with version %s (minimum %s) refused: %v (%s)", v, ver, min, err, e.desc)
+	case err == nil && verdict < 0:
+		return explore.Failf("version-gate:old-keepalive-accepted", "keep-alive of v%d with version %q accepted although it is older than the minimum %s (%s)", v, ver, min, e.desc)
+	case err != nil && verdict > 0:
+		return explore.Failf("keepalive-refused-valid-version", "keep-alive of v%d with version %q (minimum %s) refused: %v (%s)", v, ver, min, err, e.desc)
 	case err != nil:
 		if after := e.kaRecord(*ctx, v); after != before {
-			return explore.Failf("version-gate:refused-keepalive-changed-record", "refused keep-alive of v%d changed its record (%s)", v, e.desc)
+			return explore.Failf("version-gate:refused-keepalive-changed-record", "refused keep-alive of v%d (version %q) changed its record (%s)", v, ver, e.desc)
 		}
 		e.count("n_keepalive_refused")
 	default:
+		if e.kaRecord(*ctx, v) == "" {
+			return explore.Failf("keepalive-accepted-without-record", "accepted keep-alive of v%d left no record (%s)", v, e.desc)
+		}
 		g.V[v].AliveUntil = ctx.BlockHeight() + refTTL
 		e.count("n_keepalive_accepted")
+		if verdict == 0 {
+			e.count("n_keepalive_malformed_accepted")
+		}
 	}
 	return nil
 }
@@ -647,6 +734,7 @@ func (e *env) ops(n *explore.Node) []explore.Op {
 	g := n.Ghost.(*ghost)
 	obs := e.observe(n.Ctx)
 	mi := verIdx(e.minVersion(n.Ctx))
+	vmain, vprobes, vok := versionAlphabet(e.minVersion(n.Ctx))
 	var ops []explore.Op
 	add := func(label string, f func(ctx *sdk.Context, g *ghost) *explore.Fail) {
 		ops = append(ops, explore.Op{Label: label, Do: func(ctx *sdk.Context, gg explore.Ghost) *explore.Fail {
@@ -659,11 +747,12 @@ func (e *env) ops(n *explore.Node) []explore.Op {
 	}
 	for v := 0; v < nVals; v++ {
 		v := v
-		if mi >= 1 && mi+1 < len(versions) {
-			for _, kv := range [][2]string{{"min", versions[mi]}, {"below", versions[mi-1]}, {"above", versions[mi+1]}} {
-				ver := kv[1]
-				add(fmt.Sprintf("KeepAlive(v%d,%s)", v, kv[0]), func(ctx *sdk.Context, g *ghost) *explore.Fail { return e.keepAlive(ctx, g, v, ver) })
-			}
+		for _, c := range vmain {
+			ver := c.ver
+			add(fmt.Sprintf("KeepAlive(v%d,%s)", v, c.name), func(ctx *sdk.Context, g *ghost) *explore.Fail { return e.keepAlive(ctx, g, v, ver) })
+		}
+		if vok && (v == 0 || v == nVals-1) {
+			add(fmt.Sprintf("KeepAliveProbes(v%d)", v), func(ctx *sdk.Context, g *ghost) *explore.Fail { return e.keepAliveProbes(ctx, g, v, vprobes) })
 		}
 		if obs[v].Jailed {
 			add(fmt.Sprintf("Unjail(v%d)", v), func(ctx *sdk.Context, g *ghost) *explore.Fail { return e.unjail(ctx, g, v) })
@@ -1049,14 +1138,14 @@ func setRule(r *report.Run) {
 	if r.Thorough() {
 		depth, ldepth = "4 (byte-0 address group: depth 6 for (60,20,10,10), depth 5 with the rich alphabet for the other two stake vectors)", "4"
 	}
-	r.Rule = fmt.Sprintf("per (address set of 4 operator addresses, stake vector): BFS to depth %s from three initial nodes at block 2999 (keep-alives expiring at 3009; staggered 3009/3009/3011/3010; v3 jailed since block 2990) and, for the multi-comma and keyed jobs, to depth %s from ladder seeds (v3 jailed 1..k times in succession, k <= 4 or 6) over KeepAlive(v,{min,below,above}) through the real message server (signed txs for the keyed runs), Jail(v) (valset keeper), SJail(v) (slashing keeper), Unjail(v) (slashing keeper as MsgUnjail), Adv1, AdvTo10 (through the next liveness check), Adv31, Adv2000 (only among the first 2 operations of a path), RaiseMin (once)/LowerMin through the valset governance handler; base alphabet: SJail for v0,v1 only, one Adv2000; rich alphabet: SJail for every validator, SchedRaise, two RaiseMin, two Adv2000; every block runs the staking end-blocker, the valset EndBlock and the valset BeginBlock of the real application and the oracle; address sets: base 0x55*20 with byte p set to 0x00/0xff/0x2b/0x2c plus multi-comma addresses, two slot rotations; stake vectors (60,20,10,10),(30,30,30,10),(1,1,1,1),(2501,2500,2500,2499) x 10^6 ugrain and (251,250,250,249) x 10^5 ugrain (25 % protection boundary from both sides)", depth, ldepth)
+	r.Rule = fmt.Sprintf("per (address set of 4 operator addresses, stake vector): BFS to depth %s from three initial nodes at block 2999 (keep-alives expiring at 3009; staggered 3009/3009/3011/3010; v3 jailed since block 2990) and, for the multi-comma and keyed jobs, to depth %s from ladder seeds (v3 jailed 1..k times in succession, k <= 4 or 6) over KeepAlive(v, version) through the real message server with the version alphabet derived from the minimum M=vX.Y.Z in force (M, patch-1, patch+1, M-rc.1 as operations; minor/major +-1, M-0, git-describe form, M+build, rc+build, next-minor rc, bare X.Y.Z, short, garbage, empty, leading zero as probes on forks for v0 and v3) (signed txs for the keyed runs), Jail(v) (valset keeper), SJail(v) (slashing keeper), Unjail(v) (slashing keeper as MsgUnjail), Adv1, AdvTo10 (through the next liveness check), Adv31, Adv2000 (only among the first 2 operations of a path), RaiseMin (once)/LowerMin through the valset governance handler; base alphabet: SJail for v0,v1 only, one Adv2000; rich alphabet: SJail for every validator, SchedRaise, two RaiseMin, two Adv2000; every block runs the staking end-blocker, the valset EndBlock and the valset BeginBlock of the real application and the oracle; address sets: base 0x55*20 with byte p set to 0x00/0xff/0x2b/0x2c plus multi-comma addresses, two slot rotations; stake vectors (60,20,10,10),(30,30,30,10),(1,1,1,1),(2501,2500,2500,2499) x 10^6 ugrain and (251,250,250,249) x 10^5 ugrain (25 % protection boundary from both sides)", depth, ldepth)
 	r.Assumptions = []string{
 		"block time fixed at 2 s; only the staking end-blocker and the valset begin/end-block run per block (the other modules' end-blockers do not touch keep-alive, grace or jail-log state)",
 		"keep-alive boundary: a validator must be jailed only at checks with height > aliveUntil and must never be jailed at checks with height < aliveUntil; height == aliveUntil is left open (weaker reading of 'longer than the lifetime')",
 		"grace period: the 30 blocks following the block U in which the validator was unjailed; the obligation to jail starts at checks with H-U >= 31 (any unjail event counts, also one in the same block as the jailing); the clause 'not jailed for inactivity at H-U <= 30' is taken from the documented constant and applies only when the validator was jailed at the end of the previous block",
 		"protection ('more than 25 % of bonded power', exact integer test 4p > T): readings differ in the power notion (tokens, or consensus power = tokens/10^6 truncated as Keeper.Jail uses), in whether the total includes validators still in status Bonded although jailed, and in how a validator that is not bonded is counted; must-jail is required only if the validator is unprotected under every reading, evaluated on the state after the check (at most one bonded unjailed validator counts as 'last active'); jailing (by the check or by Keeper.Jail) is forbidden only if protected under every reading",
 		"sentence reset threshold: code says max(30 min, 1.05 d), its comment says +20 %; between the two thresholds both the next step and the reset are accepted",
-		"a keep-alive with a version >= the minimum from an existing validator must be accepted (otherwise a responsive validator could be jailed)",
+		"a keep-alive with a valid semver version >= the minimum from an existing validator must be accepted (otherwise a responsive validator could be jailed); versions are compared by semver 2.0 precedence (pre-releases before their release, build metadata ignored); a malformed version string must be refused unless prefixing 'v' makes it a version not older than the minimum, in which case either outcome is accepted",
 		"state hash drops ContactedAt/PigeonVersion of keep-alive records (only read by the GetAlivePigeons query) and the valset snapshot/external-chain-info prefixes (not read by the keep-alive, grace or jailing code)",
 	}
 }
